@@ -65,22 +65,27 @@ Fixpoint iv_exit (lam : iv) (lden : Z) (target : iv) (i : nat) (fuel : nat) (cur
 Definition dy_of_float (f : float) : dy :=
   match f_exact f with Some (n, d) => dy_of_frac n d | None => dy_zero end.
 
-Definition npeaks_spec (m t t2 : float) (a b : Z) : bool :=
+(* the count returned for (m, t) is the first exit of the exact search (when the enclosures can tell) *)
+Definition npeaks_exact (m t : float) (a : Z) : bool :=
   let lambda := Qred (qf0 m / 1800) in
+  if negb (PrimFloat.leb 0 t && PrimFloat.leb t 1 && PrimFloat.leb 0 m && qleb (qf0 m) (inject_Z 100000)) then true else
+  (* 1 - t is exact in binary64 for t in [0.5,1]; in general one rounding: enclose it *)
+  let one_t := 1 - qf0 t in
+  let tgt := mkIv (dy_of_frac (Qnum one_t) (Zpos (Qden one_t))) (dy_of_frac (Qnum one_t) (Zpos (Qden one_t))) in
+  let tgt := mkIv (dy_mul false (lo tgt) (mkDy (2 ^ 40 - 1) (-40))) (dy_mul true (hi tgt) (mkDy (2 ^ 40 + 1) (-40))) in
+  let lam := iv_pt (dy_of_float m) in
+  match iv_exit lam 1800 tgt 1 254 (iv_pt (dy_of_Z 1)) (iv_pt (dy_of_Z 1)) with
+  | Some (r, certain) =>
+      if negb (pow_representable lambda r && fact_representable r) then true
+      else if certain then Z.eqb a (Z.of_nat r) else (Z.of_nat r <=? a)%Z
+  | None => true
+  end.
+
+(* both calls of a record (same mass, thresholds t and t2, made one after the other) *)
+Definition npeaks_spec (m t t2 : float) (a b : Z) : bool :=
   (1 <=? a)%Z && (a <=? 255)%Z && (1 <=? b)%Z && (b <=? 255)%Z
   && (if PrimFloat.leb t t2 then (a <=? b)%Z else true)
-  && (if negb (PrimFloat.leb 0 t && PrimFloat.leb t 1 && PrimFloat.leb 0 m && qleb (qf0 m) (inject_Z 100000)) then true else
-      (* 1 - t is exact in binary64 for t in [0.5,1]; in general one rounding: enclose it *)
-      let one_t := 1 - qf0 t in
-      let tgt := mkIv (dy_of_frac (Qnum one_t) (Zpos (Qden one_t))) (dy_of_frac (Qnum one_t) (Zpos (Qden one_t))) in
-      let tgt := mkIv (dy_mul false (lo tgt) (mkDy (2 ^ 40 - 1) (-40))) (dy_mul true (hi tgt) (mkDy (2 ^ 40 + 1) (-40))) in
-      let lam := iv_pt (dy_of_float m) in
-      match iv_exit lam 1800 tgt 1 254 (iv_pt (dy_of_Z 1)) (iv_pt (dy_of_Z 1)) with
-      | Some (r, certain) =>
-          if negb (pow_representable lambda r && fact_representable r) then true
-          else if certain then Z.eqb a (Z.of_nat r) else (Z.of_nat r <=? a)%Z
-      | None => true
-      end).
+  && npeaks_exact m t a && npeaks_exact m t2 b.
 
 Definition q_holds (c : qcase) : bool :=
   match c with
